@@ -10,9 +10,10 @@ na_reasons = {}
 p = os.path.join(V, 'manifest.d', 'not_applicable.json')
 if os.path.exists(p):
     na_reasons = json.load(open(p))
+enabled = set(open(os.path.join(V, 'manifest.d', 'ENABLED')).read().split())
 for pid in props:
     frag = os.path.join(V, 'manifest.d', pid + '.json')
-    if os.path.exists(frag):
+    if os.path.exists(frag) and pid in enabled:
         f = json.load(open(frag))
         f.setdefault('property_id', pid)
         f['quick_cmd'] = './check %s --tier quick' % pid
